@@ -75,6 +75,91 @@ def dot(a, b):
     raise AnalysisError(f"dot of shapes {sa}, {sb}")
 
 
+def permute(a, axes):
+    """np.transpose(a, axes) for nested lists"""
+    sh = shape(a)
+    if sorted(axes) != list(range(len(sh))):
+        raise AnalysisError(f"transpose axes {axes} for rank {len(sh)}")
+    import itertools
+
+    def get(ix):
+        x = a
+        for i in ix:
+            x = x[i]
+        return x
+
+    new_sh = [sh[ax] for ax in axes]
+
+    def build(prefix):
+        if len(prefix) == len(new_sh):
+            src = [0] * len(sh)
+            for pos, ax in enumerate(axes):
+                src[ax] = prefix[pos]
+            return get(src)
+        return [build(prefix + [i]) for i in range(new_sh[len(prefix)])]
+
+    return build([])
+
+
+def matmul(a, b):
+    """np.matmul: the last two axes are multiplied, leading axes broadcast"""
+    sa, sb = shape(a), shape(b)
+    if len(sa) <= 2 and len(sb) <= 2:
+        return dot(a, b)
+    if len(sa) > len(sb):
+        return [matmul(x, b) for x in a]
+    if len(sb) > len(sa):
+        return [matmul(a, y) for y in b]
+    if sa[0] == sb[0]:
+        return [matmul(x, y) for x, y in zip(a, b)]
+    if sa[0] == 1:
+        return [matmul(a[0], y) for y in b]
+    if sb[0] == 1:
+        return [matmul(x, b[0]) for x in a]
+    raise AnalysisError(f"matmul of shapes {sa}, {sb}")
+
+
+def einsum(spec, ops):
+    import itertools
+
+    spec = spec.replace(" ", "")
+    if "->" not in spec or "." in spec:
+        raise AnalysisError(f"einsum '{spec}' without explicit output / with ellipsis")
+    ins, out = spec.split("->")
+    ins = ins.split(",")
+    if len(ins) != len(ops):
+        raise AnalysisError(f"einsum '{spec}' with {len(ops)} operands")
+    ext = {}
+    for sub, op in zip(ins, ops):
+        sh = shape(op)
+        if len(sh) != len(sub):
+            raise AnalysisError(f"einsum '{spec}': operand of rank {len(sh)} for '{sub}'")
+        for ch, n in zip(sub, sh):
+            if ext.setdefault(ch, n) != n:
+                raise AnalysisError(f"einsum '{spec}': extents of '{ch}' differ")
+    summed = [ch for ch in ext if ch not in out]
+
+    def get(op, ix):
+        for i in ix:
+            op = op[i]
+        return op
+
+    def build(prefix):
+        if len(prefix) == len(out):
+            asg = dict(zip(out, prefix))
+            tot = sp.Integer(0)
+            for combo in itertools.product(*[range(ext[ch]) for ch in summed]):
+                asg.update(zip(summed, combo))
+                term = sp.Integer(1)
+                for sub, op in zip(ins, ops):
+                    term = term * get(op, [asg[ch] for ch in sub])
+                tot = tot + term
+            return tot
+        return [build(prefix + [i]) for i in range(ext[out[len(prefix)]])]
+
+    return build([])
+
+
 def _index(a, idx):
     """idx: list of int | slice(None) | None"""
     if not idx:
@@ -125,7 +210,7 @@ class Evaluator:
         if isinstance(e, ast.BinOp):
             a, b = self.ev(e.left), self.ev(e.right)
             if isinstance(e.op, ast.MatMult):
-                return dot(a, b)
+                return matmul(a, b)
             ops = {ast.Add: lambda x, y: x + y, ast.Sub: lambda x, y: x - y, ast.Mult: lambda x, y: x * y, ast.Div: lambda x, y: x / y, ast.Pow: lambda x, y: x**y}
             f = ops.get(type(e.op))
             if f is None:
@@ -171,6 +256,22 @@ class Evaluator:
             for combo in itertools.product(*seqs):
                 for g, val in zip(e.generators, combo):
                     self.env[g.target.id] = val
+                out.append(self.ev(e.elt))
+            for k_, v_ in saved.items():
+                if v_ is None:
+                    self.env.pop(k_, None)
+                else:
+                    self.env[k_] = v_
+            return out
+        if isinstance(e, ast.ListComp) and len(e.generators) == 1 and not e.generators[0].ifs and isinstance(e.generators[0].target, ast.Tuple) and all(isinstance(x, ast.Name) for x in e.generators[0].target.elts):
+            it = self.ev(e.generators[0].iter)
+            names = [x.id for x in e.generators[0].target.elts]
+            saved = {k_: self.env.get(k_) for k_ in names}
+            out = []
+            for row in it:
+                if not isinstance(row, list) or len(row) != len(names):
+                    raise AnalysisError(f"{self.where}: cannot unpack in '{core.norm(core.src(e), 60)}'")
+                self.env.update(zip(names, row))
                 out.append(self.ev(e.elt))
             for k_, v_ in saved.items():
                 if v_ is None:
@@ -227,10 +328,44 @@ class Evaluator:
                         return [sp.sqrt(sum(a[i][j] ** 2 for i in range(sh[0]))) for j in range(sh[1])]
                     return [sp.sqrt(sum(a[i][j] ** 2 for j in range(sh[1]))) for i in range(sh[0])]
                 raise AnalysisError(f"{self.where}: np.linalg.norm of shape {sh} with axis {core.src(axis[0]) if axis else None}")
-            if f in ("np.dot", "np.matmul") and len(e.args) == 2:
+            if f == "np.dot" and len(e.args) == 2:
                 return dot(self.ev(e.args[0]), self.ev(e.args[1]))
+            if f == "np.matmul" and len(e.args) == 2:
+                return matmul(self.ev(e.args[0]), self.ev(e.args[1]))
+            if f == "np.einsum" and len(e.args) >= 2 and isinstance(e.args[0], ast.Constant) and isinstance(e.args[0].value, str):
+                return einsum(e.args[0].value, [self.ev(a_) for a_ in e.args[1:]])
             if f == "np.transpose" and len(e.args) == 1:
                 return transpose(self.ev(e.args[0]))
+            if f in ("np.conj", "np.conjugate") and len(e.args) == 1:
+                return _map2(lambda x, _: sp.conjugate(x), self.ev(e.args[0]), sp.Integer(0))
+            if isinstance(e.func, ast.Attribute) and e.func.attr in ("conj", "conjugate") and not e.args:
+                return _map2(lambda x, _: sp.conjugate(x), self.ev(e.func.value), sp.Integer(0))
+            if (isinstance(e.func, ast.Attribute) and e.func.attr == "transpose" and e.args) or (f == "np.transpose" and len(e.args) == 2):
+                base = self.ev(e.func.value) if f != "np.transpose" else self.ev(e.args[0])
+                ax = e.args if f != "np.transpose" else [e.args[1]]
+                if len(ax) == 1 and isinstance(ax[0], (ast.Tuple, ast.List)):
+                    ax = ax[0].elts
+                if not all(isinstance(x, ast.Constant) and isinstance(x.value, int) for x in ax):
+                    raise AnalysisError(f"{self.where}: transpose axes '{core.src(e)}'")
+                return permute(base, [x.value for x in ax])
+            if (isinstance(e.func, ast.Attribute) and e.func.attr == "swapaxes" and len(e.args) == 2) or (f == "np.swapaxes" and len(e.args) == 3):
+                base = self.ev(e.func.value) if f != "np.swapaxes" else self.ev(e.args[0])
+                a1, a2 = (e.args if f != "np.swapaxes" else e.args[1:])
+                nd = len(shape(base))
+                vals = []
+                for x in (a1, a2):
+                    v_ = x.value if isinstance(x, ast.Constant) else (-x.operand.value if isinstance(x, ast.UnaryOp) and isinstance(x.op, ast.USub) and isinstance(x.operand, ast.Constant) else None)
+                    if not isinstance(v_, int):
+                        raise AnalysisError(f"{self.where}: swapaxes '{core.src(e)}'")
+                    vals.append(v_ % nd)
+                axes = list(range(nd))
+                axes[vals[0]], axes[vals[1]] = axes[vals[1]], axes[vals[0]]
+                return permute(base, axes)
+            if f == "zip" and e.args:
+                seqs = [self.ev(a_) for a_ in e.args]
+                if not all(isinstance(x, list) for x in seqs):
+                    raise AnalysisError(f"{self.where}: zip over a scalar")
+                return [list(t) for t in zip(*seqs)]
             if f in ("np.eye", "np.identity") and e.args and isinstance(e.args[0], ast.Constant):
                 n = e.args[0].value
                 return [[sp.Integer(1 if i == j else 0) for j in range(n)] for i in range(n)]
@@ -252,6 +387,43 @@ class Evaluator:
                     return [[x] for x in a]
             raise AnalysisError(f"{self.where}: call '{core.norm(core.src(e), 60)}' has no array meaning here")
         raise AnalysisError(f"{self.where}: expression '{core.norm(core.src(e), 60)}'")
+
+
+def run_block(evl: Evaluator, stmts) -> None:
+    """Straight-line statements and for loops over arrays / zip(...) of arrays (rows are iterated), with
+    ``name = expr``, ``self.attr = expr``, ``name.append(expr)``, ``name[k] = expr`` (k an integer literal or an unrolled
+    loop index over range(n) with n known) and augmented assignments of names; everything else raises."""
+    for st in stmts:
+        if isinstance(st, ast.Expr) and isinstance(st.value, ast.Constant):
+            continue
+        if isinstance(st, ast.Assign) and len(st.targets) == 1 and isinstance(st.targets[0], (ast.Name, ast.Attribute)):
+            v = st.value
+            evl.env[core.src(st.targets[0])] = [] if isinstance(v, ast.List) and not v.elts else evl.ev(v)
+            continue
+        if isinstance(st, ast.AugAssign) and isinstance(st.target, (ast.Name, ast.Attribute)):
+            evl.env[core.src(st.target)] = evl.ev(ast.BinOp(left=st.target, op=st.op, right=st.value))
+            continue
+        if isinstance(st, ast.Expr) and isinstance(st.value, ast.Call) and isinstance(st.value.func, ast.Attribute) and st.value.func.attr == "append" and len(st.value.args) == 1:
+            tgt = core.src(st.value.func.value)
+            if not isinstance(evl.env.get(tgt), list):
+                raise AnalysisError(f"{evl.where}: append to '{tgt}' which is not a list built here")
+            evl.env[tgt] = evl.env[tgt] + [evl.ev(st.value.args[0])]
+            continue
+        if isinstance(st, ast.For) and not st.orelse:
+            it = evl.ev(st.iter)
+            if not isinstance(it, list):
+                raise AnalysisError(f"{evl.where}: loop over a scalar")
+            for row in it:
+                if isinstance(st.target, ast.Name):
+                    evl.env[st.target.id] = row
+                elif isinstance(st.target, ast.Tuple) and all(isinstance(x, ast.Name) for x in st.target.elts) and isinstance(row, list) and len(row) == len(st.target.elts):
+                    for x, r_ in zip(st.target.elts, row):
+                        evl.env[x.id] = r_
+                else:
+                    raise AnalysisError(f"{evl.where}: loop target '{core.src(st.target)}'")
+                run_block(evl, st.body)
+            continue
+        raise AnalysisError(f"{evl.where}: statement '{core.norm(core.src(st), 60)}' is outside the array fragment")
 
 
 def equal(a, b) -> bool:
